@@ -160,10 +160,11 @@ def run(ctx):
         if not rules:
             continue
         doc = {'u': g.value_for(rules, 2, 0.6), 'w': g.arbitrary(1)}
-        a = observe({}, {"allow_unknown": rules}, [doc])
+        no_schema = None if i % 2 else {}          # ... also for a validator that holds no schema at all
+        a = observe(no_schema, {"allow_unknown": rules}, [doc])
         if a["accepted"] is not True:
             continue
-        b = observe({}, {"allow_unknown": "AU"}, [doc], refs.make_registries({"AU": rules}, {}), rng.random() < 0.5)
+        b = observe(no_schema, {"allow_unknown": "AU"}, [doc], refs.make_registries({"AU": rules}, {}), rng.random() < 0.5)
         cases += 1
         dist["ref@allow_unknown-config"] += 1
         d = compare(a, b)
